@@ -170,7 +170,9 @@ func (f *Frame) checkExit(ri int, r retRec, ens []*Clause) {
 				now := e.comp(r.st, k, "")
 				was := e.comp(f.entry, k, "")
 				if now != was {
-					e.oblige("lock", "balanced", r.pc, eq(now, was), "every lock of "+strings.TrimPrefix(strings.TrimPrefix(k, "LW."), "LR.")+" acquired here is released at return", r.pos, nil)
+					a0 := e.comp(f.entry, "alloc", arrSort(sBool))
+					bal := fmt.Sprintf("(forall ((r!l Int)) (=> (select %s r!l) (= (select %s r!l) (select %s r!l))))", a0, now, was)
+					e.oblige("lock", "balanced", r.pc, bal, "every lock of "+strings.TrimPrefix(strings.TrimPrefix(k, "LW."), "LR.")+" acquired here is released at return", r.pos, nil)
 				}
 			}
 		}
@@ -186,9 +188,22 @@ func (f *Frame) checkExit(ri int, r retRec, ens []*Clause) {
 // checkFrame: every heap cell outside the modifies clause that existed at entry is unchanged at exit.
 func (f *Frame) checkFrame(r retRec, env *Env) {
 	e := f.e
-	pre := env.withState(f.entry)
-	allowed := map[string][]string{} // comp -> allowed first indices
-	whole := map[string]bool{}
+	for _, k := range sortedKeys(e.compSort) {
+		if goal := f.frameGoal(k, r.st); goal != "" {
+			e.oblige("frame", k, r.pc, goal, "nothing outside the modifies clause changes in "+k, r.pos, nil)
+		}
+	}
+}
+
+// frameAllowed evaluates the modifies clause (in the entry state) once.
+func (f *Frame) frameAllowed() {
+	if f.allowed != nil {
+		return
+	}
+	e := f.e
+	f.allowed = map[string][]string{}
+	f.whole = map[string]bool{}
+	pre := f.contractEnv(f.entry, f.entry)
 	for _, m := range f.fc.Modifies {
 		for _, t := range pre.targets(m) {
 			switch t.kind {
@@ -197,39 +212,50 @@ func (f *Frame) checkFrame(r retRec, env *Env) {
 					_, s := derefStruct(t.loc.Type)
 					for i := 0; i < s.NumFields(); i++ {
 						fl := e.fieldLoc(t.loc, s.Field(i))
-						allowed[fl.Comp] = append(allowed[fl.Comp], fl.Idx[0])
+						f.allowed[fl.Comp] = append(f.allowed[fl.Comp], fl.Idx[0])
 					}
 				} else {
-					allowed[t.loc.Comp] = append(allowed[t.loc.Comp], t.loc.Idx[0])
+					f.allowed[t.loc.Comp] = append(f.allowed[t.loc.Comp], t.loc.Idx[0])
 				}
 			case "elems":
-				allowed[t.comp] = append(allowed[t.comp], t.idx)
+				f.allowed[t.comp] = append(f.allowed[t.comp], t.idx)
 			case "comp":
-				whole[t.comp] = true
+				f.whole[t.comp] = true
 			}
 		}
 	}
-	alloc0 := e.comp(f.entry, "alloc", arrSort(sBool))
-	for _, k := range sortedKeys(e.compSort) {
-		if k == "alloc" || strings.HasPrefix(k, "LW.") || strings.HasPrefix(k, "LR.") || strings.HasPrefix(k, "ITER.") || strings.HasPrefix(k, "CH.pending") || whole[k] {
-			continue
-		}
-		now := e.comp(r.st, k, "")
-		was := e.comp(f.entry, k, "")
-		if now == was {
-			continue
-		}
-		var excl []string
-		for _, a := range allowed[k] {
-			excl = append(excl, not(eq("r!f", a)))
-		}
-		guard := and(append([]string{sel(alloc0, "r!f")}, excl...)...)
-		if strings.HasPrefix(k, "G.") || strings.HasPrefix(k, "EV.") {
-			guard = and(excl...)
-		}
-		goal := fmt.Sprintf("(forall ((r!f Int)) (=> %s (= (select %s r!f) (select %s r!f))))", guard, now, was)
-		e.oblige("frame", k, r.pc, goal, "nothing outside the modifies clause changes in "+k, r.pos, nil)
+}
+
+func frameExempt(k string) bool {
+	return k == "alloc" || strings.HasPrefix(k, "LW.") || strings.HasPrefix(k, "LR.") || strings.HasPrefix(k, "ITER.") || strings.HasPrefix(k, "CH.pending") || strings.HasPrefix(k, "CH.nrecv")
+}
+
+// frameGoal: "every cell of component k that existed at entry and is outside the modifies clause has its entry value in st"
+// ("" when k is exempt or syntactically unchanged).
+func (f *Frame) frameGoal(k string, st *State) string {
+	e := f.e
+	if f.fc == nil || !(f.fc.HasMod || f.fc.Pure) || frameExempt(k) {
+		return ""
 	}
+	f.frameAllowed()
+	if f.whole[k] {
+		return ""
+	}
+	now := e.comp(st, k, "")
+	was := e.comp(f.entry, k, "")
+	if now == was {
+		return ""
+	}
+	alloc0 := e.comp(f.entry, "alloc", arrSort(sBool))
+	var excl []string
+	for _, a := range f.allowed[k] {
+		excl = append(excl, not(eq("r!f", a)))
+	}
+	guard := and(append([]string{sel(alloc0, "r!f")}, excl...)...)
+	if strings.HasPrefix(k, "G.") || strings.HasPrefix(k, "EV.") {
+		guard = and(excl...)
+	}
+	return fmt.Sprintf("(forall ((r!f Int)) (! (=> %s (= (select %s r!f) (select %s r!f))) :pattern ((select %s r!f))))", guard, now, was, now)
 }
 
 // evalClause evaluates a loop invariant at loop head b in state st.
